@@ -50,6 +50,34 @@ pub fn check_bytes(e: &Entry, bytes: &[u8], family: &str, stats: &mut Stats) -> 
 		stats.nontrivial(&(e.name, bytes));
 	}
 	stats.sample(|| json!({"type": e.name, "bytes": hex(bytes), "family": family, "reference": outcome_class}));
+	// the shared-buffer entry point must be just as total and exact (its zero-copy cursor has its own bounds logic)
+	if let Some(db) = e.decode_bytes {
+		let via = match guard(|| db(bytes)) {
+			Ok(x) => x,
+			Err(p) =>
+				return Err(Violation::new(
+					format!("C03/panic/decode_from_bytes/{}", e.ty.family()),
+					format!("type {}: decode_from_bytes panicked: {p}\nbytes {}", e.name, hex(bytes)),
+				)),
+		};
+		let agrees = match (&reference, &via.0) {
+			(Err(_), Err(_)) => true,
+			(Ok((rv, _)), Ok(gv)) => eqv(&normalize(&e.ty, rv), &normalize(&e.ty, gv)),
+			_ => false,
+		};
+		if !agrees {
+			return Err(Violation::new(
+				format!("C03/decode_from_bytes/{}", e.ty.family()),
+				format!(
+					"type {}: decode_from_bytes {} where the reference decoder {}\nbytes {}",
+					e.name,
+					if via.0.is_ok() { "accepts" } else { "rejects" },
+					if reference.is_ok() { "accepts (or yields another value)" } else { "rejects" },
+					hex(bytes)
+				),
+			));
+		}
+	}
 	match (&reference, &real.0) {
 		(Err(_), Err(_)) => Ok(()),
 		(Ok((rv, rused)), Ok(gv)) => {
